@@ -86,6 +86,7 @@ def gen_queries(rng, kb, sg, keys, limit, far=True):
         if len(qs) > 4 * limit: break
         if b - a > 2: qs.add((a + b) // 2)
     qs.update([lo, min(top, lo + 1), top, max(lo, top - 1), ks[0], ks[-1]])
+    if lo <= 0 <= top: qs.add(0)          # what a read just past a zero-filled / mapped tail would compare equal to
     if ks[0] - 1 >= lo: qs.add(ks[0] - 1)
     if ks[-1] + 1 <= top: qs.add(ks[-1] + 1)
     if far:
@@ -318,6 +319,39 @@ def gen_dyn(tier, seed, reject=False):
         stats["base"][base] = stats["base"].get(base, 0) + 1
         cases.append("DYN d%d %s %d %d %s %d %d %d %d %d | %s | %s" % (j, cfg["name"], cfg["kbits"], cfg["signed"], cfg["vkind"], base, bl, il,
                                                                    cfg["eps"], cfg["epsrec"], " ".join(bulk), " ".join(ops)))
+    # churn histories: levels that own an index (low index level), then rounds of "erase m live keys, insert m fresh keys":
+    # merges into the last level that drop as many pairs as they add (same size, different keys), every live key looked up after
+    # each round; aimed at stale per-level indexes and tombstone bookkeeping
+    nchurn = 12 if tier == "quick" else 150
+    for j in range(nchurn):
+        cfg = cfgs[(j * 7 + seed) % len(cfgs)]
+        lo, hi = krange(cfg["kbits"], cfg["signed"])
+        base = rng.choice([4, 4, 8, 16]); bl = rng.choice([1, 2]) if base == 4 else 1; il = rng.choice([1, 2, 3])
+        step = rng.choice([1, 3, 10])
+        n0 = rng.choice([6, 12, 20, 40, 64]) if cfg["kbits"] > 8 else rng.choice([6, 12, 20])
+        rounds = rng.choice([4, 8, 12]) if cfg["kbits"] > 8 else 4
+        span = (n0 + rounds * 8 + 4) * step
+        origin = max(lo, min(rng.choice([lo, 0, 10, rng.randint(lo, hi - span - 2)]), hi - span - 2))
+        live = [origin + step * i for i in range(n0)]
+        nxt = origin + step * n0
+        if rng.random() < 0.5:
+            bulk = ["%d:%d" % (k, i % 60000) for i, k in enumerate(live)]; ops = []
+        else:
+            bulk = ["-"]; ops = ["I:%d:%d" % (k, i % 60000) for i, k in enumerate(live)]
+        dead = []
+        for r in range(rounds):
+            m = rng.choice([1, 2, 3, 3, 4, 6])
+            vict = rng.sample(live, min(m, len(live) - 1)) if rng.random() < 0.6 else live[:min(m, len(live) - 1)]
+            for k in vict: ops.append("E:%d" % k); live.remove(k); dead.append(k)
+            for _ in range(len(vict)):
+                ops.append("I:%d:%d" % (nxt, rng.randrange(60000))); live.append(nxt); nxt += step
+            probe = live if len(live) <= 24 else rng.sample(live, 24)
+            ops += ["F:%d" % k for k in probe] + ["F:%d" % k for k in dead[-4:]] + ["L:%d" % rng.choice(live), "S"]
+            stats["ops"]["churn_round"] = stats["ops"].get("churn_round", 0) + 1
+        ops += ["B", "S", "M"]
+        stats["base"][base] = stats["base"].get(base, 0) + 1
+        cases.append("DYN dc%d %s %d %d %s %d %d %d %d %d | %s | %s" % (j, cfg["name"], cfg["kbits"], cfg["signed"], cfg["vkind"], base, bl, il,
+                                                                    cfg["eps"], cfg["epsrec"], " ".join(bulk), " ".join(ops)))
     return cases, stats
 
 # ---------------------------------------------------------------- Bucketing / Elias-Fano variants
@@ -356,6 +390,28 @@ def gen_var(tier, seed, kind):
             stats["styles"][style] = stats["styles"].get(style, 0) + 1
             b = "n<=4" if len(keys) <= 4 else "n<=64" if len(keys) <= 64 else "n<=1024" if len(keys) <= 1024 else "n>1024"
             stats["n"][b] = stats["n"].get(b, 0) + 1
+        # keys spanning (almost) the whole universe with several segments starting in the last cells of the top-level table:
+        # products i*step / rebased keys close to the maximum of K (overflow handling of the bucket bounds, widest low parts)
+        lo, hi = krange(cfg["kbits"], 0)
+        for j in range(2 if tier == "quick" else 12):
+            m = rng.choice([20, 60, 200])
+            span_top = min(hi // 4, 1 << rng.choice([8, 20, 30, 40]))
+            bottom = sorted(rng.randrange(0, min(hi // 4, 1 << 20) + 1) for _ in range(m))
+            middle = sorted(rng.randrange(0, hi - 1) for _ in range(rng.choice([0, 5, m])))
+            top, x = [], hi - 1 - rng.choice([0, 1, 5, 1000])
+            for _ in range(m):
+                top.append(x); x -= rng.choice([0, 1, 1, 2, 7, max(1, span_top // (m * rng.choice([1, 3, 50])))])
+                if x <= hi // 2: break
+            keys = sorted(k for k in bottom + middle + top if lo <= k <= hi - 1)
+            qs = gen_queries(rng, cfg["kbits"], 0, keys, 60 if tier == "quick" else 150)
+            cid += 1
+            if kind == "BK":
+                cases.append("BKT k%d %s %d %d %d %d %d | %s | %s" % (cid, cfg["name"], cfg["kbits"], cfg["eps"], cfg["tls"], cfg["tlbs"], cfg["fdouble"],
+                                                                    " ".join(map(str, keys)), " ".join(map(str, qs))))
+            else:
+                cases.append("EFI f%d %s %d %d %d | %s | %s" % (cid, cfg["name"], cfg["kbits"], cfg["eps"], cfg["fdouble"],
+                                                              " ".join(map(str, keys)), " ".join(map(str, qs))))
+            stats["styles"]["fullspan"] = stats["styles"].get("fullspan", 0) + 1
     return cases, stats
 
 
@@ -396,6 +452,18 @@ def gen_map(tier, seed):
             stats["styles"][style] = stats["styles"].get(style, 0) + 1
             fk = "zero" if keys[0] == 0 else "positive" if keys[0] > 0 else "negative"
             stats["first_key"][fk] = stats["first_key"].get(fk, 0) + 1
+        if cfg["signed"]:
+            # every stored key negative, 0 absent: the predicted position of query 0 is n (one past the last element)
+            for j in range(2 if tier == "quick" else 10):
+                n = rng.choice([1, 3, 40, 300])
+                near = rng.random() < 0.5
+                keys = sorted((-rng.randint(1, 50) if near else rng.randint(max(lo, -10 ** 6), -1)) for _ in range(n))
+                qs = sorted(set([0, 1, -1, keys[0], keys[-1], keys[-1] + 1, keys[len(keys) // 2]]))
+                cid += 1
+                cases.append("MAP m%d %s %d %d %d %d %d | %s | %s" % (cid, cfg["name"], cfg["kbits"], cfg["signed"], cfg["eps"], cfg["epsrec"], cfg["fdouble"],
+                                                                    " ".join(map(str, keys)), " ".join(map(str, qs))))
+                stats["styles"]["all-negative"] = stats["styles"].get("all-negative", 0) + 1
+                stats["first_key"]["negative"] = stats["first_key"].get("negative", 0) + 1
     return cases, stats
 
 
